@@ -33,7 +33,7 @@ def run(ctx):
     binary = ctx.go_build("rpc")
     out = os.path.join(ctx.scratch, "rpc_res.json")
     stride = 1 if thorough else 6
-    p = ctx.run_driver(binary, ["-in", cases_file, "-out", out, "-stride", str(stride), "-offset", str(ctx.seed % stride)], timeout=3000)
+    p = ctx.run_driver(binary, ["-in", cases_file, "-out", out, "-stride", str(stride), "-offset", str(ctx.seed % stride)], timeout=3000 if thorough else 420)
     if p.returncode != 0 or not os.path.exists(out):
         if "panic:" in p.stdout or "fatal error" in p.stdout:
             import re
